@@ -54,6 +54,17 @@ PROPS = {
                        "measure (set of roots, set of tuples not yet in the old tables, empty-join flag) -- hence close() terminates within "
                        "(U+1) * (sum of U^arity + 1) * 2 iterations on every model with at most U elements per type",
     },
+    "C15": {
+        "classes": r"enum\.|^enumq\.",
+        "lemmas": lambda n: True,
+        "witness": "enum",
+        "only_enum": True,
+        "explanation": "bounded inductive verification for the corpus programs with enum types: INV-enum (every allocated element of an enum "
+                       "type is, modulo the current equalities, the value of a row of some constructor graph) holds after new(), is preserved by "
+                       "every public mutator, by close_until's prologue and by one arbitrary loop iteration; under INV-enum on a closed state "
+                       "<enum>_case(el) reaches no unwrap on None and returns a constructor whose application to the returned arguments equals "
+                       "el, every item of <enum>_cases does, and new_<enum>(c) followed by <enum>_cases contains c up to equality",
+    },
     "C07": {
         "classes": r"^step\.(early|contract)",
         "lemmas": lambda n: n == "step" or n == "prologue",
@@ -96,6 +107,8 @@ def main():
         if cfg.get("only_surjective") and L.has_defs(su.rules):
             continue
         ctx, I, sch = su.fresh()
+        if cfg.get("only_enum") and not L.enum_types(su, sch):
+            continue
         schemas[name] = (su, sch)
         for U in tier_universes(tier, name, corpus):
             for lname, _ in L.all_lemmas(su):
